@@ -116,3 +116,79 @@ def newton_step(tier="quick", seed=0, only=None):
             seen.add(f["label"])
             uniq.append(f)
     return result(cases, uniq, f"scenarios {names} x random in-box points x (dt, rho) pairs x 4 step solvers x applicable linear solvers")
+
+
+@native("native.c13.deriv_formats", ["C13", "C11"])
+def deriv_formats(tier="quick", seed=0, only=None):
+    """bounded: the generalised Jacobians ImplicitFunc.deriv_at / ScaledImplicitFunc.deriv_at at points with a
+    non-empty active set, for callbacks returning COO / CSR / CSC matrices: (a) the same entries whatever the format,
+    (b) evaluating twice gives the same matrix, (c) the iterate's cached Jacobian / the callback's matrices keep
+    their values (an in-place row filter on an aliased transposed view would change them)"""
+    use_repo()
+    from pygradflow.implicit_func import ImplicitFunc, ScaledImplicitFunc
+    from pygradflow.iterate import Iterate
+
+    from .native_solve import _caching
+
+    rng = np.random.default_rng(13 + seed)
+    failures, cases = [], 0
+    S = scenarios()
+    names = ["qp_eq_box", "nlp_mixed", "qp_ranged_fixed"] if tier == "quick" else [n_ for n_ in S if n_ != "qp_big_multipliers"]
+    for name in names:
+        mk, x0, y0 = S[name]
+        base = mk()
+        n, m = base.num_vars, base.num_cons
+        if m == 0:
+            continue
+        for trial in range(2 if tier == "quick" else 6):
+            # a point with some variables pushed far outside their bounds after the explicit step => active set non-empty
+            x = np.clip(rng.uniform(-1, 1, n), base.var_lb, base.var_ub)
+            y = rng.uniform(-2, 2, m)
+            dt, rho = (50.0, 1.0) if trial % 2 == 0 else (0.5, 10.0)
+            ref = {}
+            for cls in (ImplicitFunc, ScaledImplicitFunc):
+                for fmt in ("coo", "csr", "csc"):
+                    inp = dict(scenario=name, trial=trial, func=cls.__name__, format=fmt)
+                    if only is not None and only != inp:
+                        continue
+                    prob = _caching(mk(fmt), fmt)
+                    params = mk_params()
+                    it = Iterate(prob, params, x, y)
+                    func = cls(prob, it, dt)
+                    J0 = it.cons_jac.toarray().copy()
+                    cases += 1
+                    try:
+                        D1 = func.deriv_at(it, rho).toarray()
+                        J1 = it.cons_jac.toarray()
+                        D2 = func.deriv_at(it, rho).toarray()
+                    except Exception as e:  # noqa
+                        failures.append(dict(label=f"C13:deriv_at_raises_or_corrupts_its_inputs:{type(e).__name__}:{fmt}", input=inp, observed=str(e)[:200]))
+                        continue
+                    if not np.array_equal(J0, J1):
+                        failures.append(dict(label=f"C13:deriv_at_changes_the_iterate's_constraint_Jacobian:{fmt}", input=inp, observed=f"max change {np.abs(J0 - J1).max():.3g}"))
+                    if not np.array_equal(D1, D2):
+                        failures.append(dict(label=f"C13:deriv_at_not_repeatable:{fmt}", input=inp, observed=f"max difference {np.abs(D1 - D2).max():.3g}"))
+                    key = cls.__name__
+                    if key not in ref:
+                        ref[key] = (fmt, D1)
+                    elif not np.allclose(ref[key][1], D1, rtol=1e-12, atol=1e-12):
+                        failures.append(dict(label=f"C13:deriv_at_depends_on_the_sparse_format_of_the_callbacks:{ref[key][0]}_vs_{fmt}", input=inp, observed=f"max difference {np.abs(ref[key][1] - D1).max():.3g}"))
+                    try:
+                        touched = [k[0] for k, v0 in prob._born.items() if _snap_(prob._cache[k]) != v0]
+                    except Exception as e:  # noqa  (a matrix whose arrays no longer describe a valid sparse matrix)
+                        failures.append(dict(label=f"C13:deriv_at_leaves_a_callback's_matrix_in_an_invalid_state:{fmt}", input=inp, observed=f"{type(e).__name__}: {str(e)[:120]}"))
+                        touched = []
+                    if touched:
+                        failures.append(dict(label=f"C13:deriv_at_modifies_a_matrix_returned_by_the_{touched[0]}_callback:{fmt}", input=inp, observed=str(sorted(set(touched)))))
+    seen, uniq = set(), []
+    for f in failures:
+        if f["label"] not in seen:
+            seen.add(f["label"])
+            uniq.append(f)
+    return result(cases, uniq, f"scenarios {names} x 2 points x {{ImplicitFunc, ScaledImplicitFunc}} x {{COO, CSR, CSC}}")
+
+
+def _snap_(v):
+    from .native_solve import _snap
+
+    return _snap(v)
